@@ -501,6 +501,12 @@ def leaked_handle_programs():
         for probe in ("x(s); echo(measure G.so.q);", "x(G.so.q); echo(measure s);"):
             yield ("escape:leak-during-%s:%s:x-via-leaked-handle" % (dn, "gate-leaked" if probe.startswith("x(s)") else "gate-fresh"),
                    cls + extra + "function main() -> void { qubit pad; %s %s }\n" % (dsrc, probe), 1)
+    # (seeds C04-1 / C05-1 revisited, C06-3, C17-6) the leaked handle flips the released qubit and then goes out of scope: the slot is free
+    # again and in |1>; the declaration that takes it must still start in |0>
+    for ln, lsrc in leaks.items():
+        for fn, (fsrc, handles) in fresh.items():
+            probes = " ".join("echo(measure %s);" % hnd for hnd in handles)
+            yield ("escape:leak-%s:%s:flipped-after-release-then-out-of-scope" % (ln, fn), cls + "function main() -> void { qubit pad; { %s x(s); } %s %s }\n" % (lsrc, fsrc, probes), len(handles))
     # the handle is a field of the object whose destructor is running; the owner dies inside that destructor
     for fn, (fsrc, handles) in fresh.items():
         probes = " ".join("echo(measure %s);" % hnd for hnd in handles)
